@@ -12,7 +12,9 @@ StepBad(tr, k) ==
           [] a.op = "setGeom"  -> (IF OverrideOK(a, t) THEN {} ELSE {"OverrideReported"})
                                   \cup (IF \A k2 \in DOMAIN s.slides : k2 # a.k => t.slides[k2] = s.slides[k2] THEN {} ELSE {"OthersUntouched"})
           [] a.op = "notes"    -> IF NotesOK(tr.steps[k].notes, tr.nmas) THEN {} ELSE {"NotesMirror"}
-          [] a.op = "reopen"   -> IF [i \in DOMAIN t.slides |-> t.slides[i].phs] = [i \in DOMAIN s.slides |-> s.slides[i].phs] THEN {} ELSE {"ReopenKeepsPlaceholders"}
+          [] a.op = "reopen"   -> (IF [i \in DOMAIN t.slides |-> t.slides[i].phs] = [i \in DOMAIN s.slides |-> s.slides[i].phs] THEN {} ELSE {"ReopenKeepsPlaceholders"})
+                                  \* "the other slides are untouched" also in the file that is written: every slide is still there, in order, with its content
+                                  \cup (IF [i \in DOMAIN t.slides |-> t.slides[i].tok] = [i \in DOMAIN s.slides |-> s.slides[i].tok] THEN {} ELSE {"ReopenKeepsSlides"})
           [] OTHER -> IF Len(t.slides) = Len(s.slides) /\ \A i \in DOMAIN s.slides : i # a.k => t.slides[i].tok = s.slides[i].tok THEN {} ELSE {"OthersUntouched"})
 Bad(tr) == {[at |-> "step", k |-> k, failing |-> StepBad(tr, k)] : k \in {j \in 2..Len(tr.steps) : StepBad(tr, j) # {}}}
 BadT == {k \in DOMAIN T : Bad(T[k]) # {}}
